@@ -60,6 +60,11 @@ pub const ACTIONS: &[(&str, &str)] = &[
     ("tmp-builtin-error-printf", "x=tmp printf -v r '%s' q"),
     ("tmp-builtin-error-cd", "x=tmp cd /nonexistent-dir 2>/dev/null"),
     ("tmp-two-builtin-error", "x=t1 a=t2 cd /nonexistent-dir 2>/dev/null"),
+    // a function called with a temporary assignment unsets / re-declares that name itself
+    ("tmp-function-unset", "tu() { unset x; echo \"in=${x-UNSET}\"; x=afterunset; }; x=tmp tu"),
+    ("tmp-function-unset-twice", "tv() { unset x; unset x; echo \"in=${x-UNSET}\"; }; x=tmp tv"),
+    ("tmp-function-local", "tw() { local x; echo \"in=${x-UNSET}\"; x=loc; }; x=tmp tw"),
+    ("tmp-function-export", "ty() { export x; venv x; }; x=tmp ty"),
 ];
 
 const PROBE: &str = "pr() { local n; for n in x a r; do declare -p $n 2>/dev/null || echo \"$n: unset\"; done; venv x a r; }\n";
